@@ -71,6 +71,15 @@ Reading.
   note in one of its tracks, at the written ticks (theorems import_key_signature_positions,
   import_time_signature_cases, import_time_sig_change_positions, import_signatures_spec); the `impspec` stream compares
   this prediction, computed from the SCORE alone, with the real import in the same and in other modes.
+* "tied notes merged": a merged note starts at the onset of the head of its tie chain and lasts the SUM of the lengths
+  of the members - wherever the members stand.  A tie may join notes that are NOT neighbours on the timeline (the note
+  before a first ending tied to the first note of the second ending; a tie that skips a bar): the end of the last member
+  (`end_tied`) is then later than the end of the merged note by what the tie skips (theorems end_tied_gaps,
+  end_tied_eq_iff_no_gap; on ordinary chains both are one time: end_tied_contiguous).  `add_gapped_ties` makes such
+  chains (the merged note overlaps no note of its pitch).  The generated domain keeps them inside a span on which
+  `start + duration_tied` (a count of divisions from the onset) and the sum of the members' lengths in quarters agree
+  (`tie_span_uniform`): with a change of the divisions between head and continuation the unchanged exporter converts
+  the continuation's divisions at the wrong rate (proposed fix C04-11).
 * a `pad_bar` origin that is not a multiple of a tick (bar length of the first signature not representable in
   any division of the score, e.g. 3/8 with one division per quarter) is outside the generated domain
   (`ticks_integral_pad_partial` states the hypothesis; counter-example in Props/C04.lean).
@@ -91,7 +100,7 @@ DRIVER = "drv_c04"
 PROPS = ["PartituraModel.Props.C04", "PartituraModel.Props.C04Export", "PartituraModel.Props.C04Sigs",
          "PartituraModel.Props.C04Cells", "PartituraModel.Props.C04History", "PartituraModel.Props.C04Edit",
          "PartituraModel.Props.C04Total", "PartituraModel.Props.C04ImportSigs",
-         "PartituraModel.Props.C04Domain", "PartituraModel.Props.C04ImportMeta"]
+         "PartituraModel.Props.C04Domain", "PartituraModel.Props.C04ImportMeta", "PartituraModel.Props.C04Ties"]
 TRUSTED = [
     "mido: message (de)serialisation, variable-length delta times, end_of_track appended on save; the file is "
     "written to a buffer and read back with mido.MidiFile before anything is compared",
@@ -137,6 +146,10 @@ PARTIAL = [
     "vocabulary (routedTo, trackKS, trackTS, trackTempo, scoreRows, importedRows, writtenCells, ScoreNoOverlap of "
     "Model/ScoreMidiSpec.lean; importedPartIds, specImportedKS, specImportedTS of Model/ScoreMidiImportSpec.lean) means "
     "what the real file / the real import holds, is established by the differential run only",
+    "ties between notes that are not neighbours on the timeline are generated only where no change of the divisions makes "
+    "start + duration_tied differ from the sum of the members' lengths in quarters (tie_span_uniform): the unchanged "
+    "exporter is wrong outside (witness and repair in fixes/C04-11); the theorems of Props/C04Ties.lean are about the "
+    "time in divisions (end_tied against start + duration_tied), the tick image is that of score_roundtrip_tied",
     "create_part: only the quarter duration it sets and the placement of the notes in divisions (create_part_placement); "
     "measures, ties, tuplets, symbolic durations of the created part are C11's subject",
     "imported signatures: the KEY signatures of every imported part are proved for every policy and every pair of export / "
@@ -161,6 +174,9 @@ RULE = ("seeded musical scores: 1-3 parts (optionally in part groups, also neste
         "of their own main note, or on a pitch that starts or ends there), ties over barlines, notes crossing a division "
         "change; pitches chosen so that equal pitches never overlap anywhere in the score but deliberately touch across "
         "voices/parts; each score x 6 modes x 3 anacrusis behaviours x minimum_ppq in {0,96,480} x a velocity; plus "
+        "in about a quarter of the scores 1-2 ties per part between notes that are NOT neighbours on the timeline (the last "
+        "note of a chain tied to the head of a later chain after a gap, as over a first ending; same or another voice; "
+        "chains of three and more with one or several gaps), kept when the merged note overlaps no note of its pitch; "
         "direct calls of get_ppq-rule, map_to_track_channel, assign_group_part_voice/make_track_to_part_mapping and "
         "duration_tied on random inputs (invalid modes included) and raw MIDI files for the two readers; a share of the "
         "scores built with a random `warm` mask per part (views read in the middle of the construction, notes re-added); "
@@ -1235,6 +1251,19 @@ def evaluate(d):
         want = sorted((a, b, c) for a, b, c, _ in sounding_desc(sd))
         if sorted(rows) != want:
             ev.oracle.append("tied: notes_tied/duration_tied rows differ from the merged tie chains of the description")
+        # `end_tied` (the end of the LAST member) next to the summed duration: equal to start + duration_tied exactly on
+        # the chains without a gap (theorems end_tied_gaps, end_tied_eq_iff_no_gap)
+        ev.requests.append("tiedend " + ev.requests[-1][len("tied "):])
+        ev.impl.append(W.f_list(lambda r: W.f_tuple(*[W.f_int(x) for x in r]),
+                                [(n.start.t, n.duration_tied, n.end_tied.t, n.midi_pitch) for n in part.notes_tied]))
+        byid = {n["id"]: n for n in sd["notes"]}
+        for n in part.notes_tied:
+            ch = chain_of(sd, byid[n.id], byid)
+            gaps = sum(b["t"] - (a["t"] + a["dur"]) for a, b in zip(ch, ch[1:]))
+            if int(n.end_tied.t) != ch[-1]["t"] + ch[-1]["dur"] or int(n.end_tied.t) - int(n.start.t) - int(n.duration_tied) != gaps:
+                ev.oracle.append("tied(end): note %s: end_tied %d, start %d, duration_tied %d; the chain of the description ends at %d and "
+                                 "skips %d divisions" % (n.id, n.end_tied.t, n.start.t, n.duration_tied, ch[-1]["t"] + ch[-1]["dur"], gaps))
+                break
         ev.key = "tied:%d" % d["seed"]
     return ev
 
@@ -2208,6 +2237,21 @@ def oracle(sd, order, cfg, mf, tracks, pnotes, sc2, tag):
         if dq > 0 and kx in where:
             part_tracks[pi].add(where[kx][0])
             cell[(pi, voice)] = cell.get((pi, voice), set()) | {where[kx]}
+    # a track that holds nothing of a part but notes of zero duration (a voice whose only other note is the continuation
+    # of a tie that starts in another voice) still belongs to that part: the tracks in which a zero-duration note of the
+    # part MAY stand (an over-approximation, used only where a larger set of owners demands less)
+    zero_tracks = defaultdict(set)
+    if pnotes is not None:
+        where_all = defaultdict(set)
+        for n in pnotes:
+            where_all[(n["note_on_tick"], n["midi_pitch"], n["note_off_tick"] - n["note_on_tick"])].add(n["track"])
+        for (q, dq, p, pi, voice) in want:
+            if dq == 0 and ((q - org) * ppq).denominator == 1:
+                zero_tracks[pi] |= where_all.get((int((q - org) * ppq), p, 0), set())
+
+    def owners_of(trk):
+        return [pi for pi in range(len(pds)) if trk in part_tracks.get(pi, ()) or trk in zero_tracks.get(pi, ())]
+
     # ---- time / key signatures and tempi of the file
     msgs = [[(t, m) for (t, _, m) in tr] for tr in tracks]
 
@@ -2225,7 +2269,7 @@ def oracle(sd, order, cfg, mf, tracks, pnotes, sc2, tag):
                         out.append("timesig(file): [%s] part %d signature %d/%d at division %d missing at tick %s of track %d"
                                    % (tag, pi, b, bt, t, tk, trk))
         for trk in (range(len(msgs)) if (pnotes is not None and got == want_ms) else []):
-            owners = [pi for pi in part_tracks if trk in part_tracks[pi]]
+            owners = owners_of(trk)
             allowed = set()
             for pi in owners:
                 for i, (t, b, bt) in enumerate(pds[pi].get("ts", [])):
@@ -2278,7 +2322,7 @@ def oracle(sd, order, cfg, mf, tracks, pnotes, sc2, tag):
                                % (tag, pi, nm, t, tick_of(pd, t), trk))
     # no key signature in a track that no part of the track has at that musical position
     for trk in (range(len(msgs)) if (pnotes is not None and got == want_ms) else []):
-        owners = [pi for pi in part_tracks if trk in part_tracks[pi]]
+        owners = owners_of(trk)
         allowed = set((tick_of(pds[pi], t), fifths_mode_to_key_name(f, md)) for pi in owners for (t, f, md) in pds[pi].get("ks", []))
         for t, m in msgs[trk]:
             if m.type == "key_signature" and (t, m.key) not in allowed:
@@ -2288,7 +2332,7 @@ def oracle(sd, order, cfg, mf, tracks, pnotes, sc2, tag):
     # measure end of a part of the track
     if anac == "time_sig_change":
         for trk in (range(len(msgs)) if (pnotes is not None and got == want_ms) else []):
-            owners = [pi for pi in part_tracks if trk in part_tracks[pi]]
+            owners = owners_of(trk)
             spots = set()
             for pi in owners:
                 spots |= set(tick_of(pds[pi], x[0]) for x in pds[pi].get("ts", []))
